@@ -120,7 +120,9 @@ def run(ctx):
     from ..atomic import sections, self_call, simple
 
     def _drain(n):
-        return (isinstance(n, ast.AsyncFor) and self_call(n.iter, "_read_available")) or (simple(n) and self_call(n, "_read_available"))
+        # (the drain itself; or a blocking read - it returns the head of the queue or finds the queue empty for its whole timeout, and a
+        #  retransmission only ever follows the latter)
+        return (isinstance(n, ast.AsyncFor) and self_call(n.iter, "_read_available")) or (simple(n) and (self_call(n, "_read_available") or self_call(n, "_read")))
     sec = sections(prog, send, _drain, lambda n: simple(n) and self_call(n, "_protocol", "write"),
                    on_raise=lambda n: [("TimeoutError", True)] if simple(n) and self_call(n, "_read") else [])
     ctx.count("transmission_sites", len(sec))
